@@ -44,6 +44,27 @@ Proof.
   split; [unfold p_ongoing; rewrite Hb; reflexivity | apply idle_is_new; assumption].
 Qed.
 
+(** a backspace that returns an EMPTY suggestion - because nothing is left, or because what is left displays as
+    nothing - ends the word *)
+Lemma empty_backspace_clears c s ctrl : out_empty (snd (p_backspace Q c s ctrl)) = true -> p_buf (fst (p_backspace Q c s ctrl)) = [].
+Proof.
+  unfold p_backspace. destruct (p_buf s) eqn:Eb; [intros _; exact Eb|].
+  destruct ctrl; [intros _; destruct s; reflexivity|].
+  destruct (removelast (n :: s0)); [intros _; destruct s; reflexivity|]. cbn zeta.
+  destruct (out_empty (snd (create_suggestion Q c (set_buf s (n0 :: l))))) eqn:E; cbn [fst snd]; [intros _; destruct (fst _); reflexivity | congruence].
+Qed.
+
+Lemma after_empty_backspace uac0 sels0 c s ctrl c' s' o :
+  Reach Q uac0 sels0 c s -> p_step Q c s (PBackspace ctrl) = Some (c', s', o) -> out_empty o = true ->
+  p_ongoing s' = false /\ R Q c' s' (p_new (p_uac s') (p_sels s')).
+Proof.
+  intros Hr Hs Ho. pose proof Hs as Hs0. cbn [p_step] in Hs.
+  pose proof (empty_backspace_clears c s ctrl) as Hc. destruct (p_backspace Q c s ctrl) as [s1 o1]. cbn [fst snd] in Hc.
+  inversion Hs; subst. specialize (Hc Ho).
+  pose proof (reach_good Q uac0 sels0 c' s' (reach_step Q uac0 sels0 c' s (PBackspace ctrl) c' s' o Hr I Hs0)) as G.
+  split; [unfold p_ongoing; rewrite Hc; reflexivity | apply idle_is_new; assumption].
+Qed.
+
 Lemma idle_backspace c s ctrl : p_buf s = [] -> p_backspace Q c s ctrl = (s, OSingle [] false).
 Proof. intros Hb. unfold p_backspace. rewrite Hb. reflexivity. Qed.
 
